@@ -2,6 +2,7 @@ import GitBugModel.Model.Lamport
 import GitBugModel.Model.Dag
 import GitBugModel.Props.C02
 import GitBugModel.Model.MemClockCAS
+import GitBugModel.Gen.WritePaths
 /-!
 # C05 — logical clocks only move forward and dominate everything seen
 -/
@@ -273,5 +274,15 @@ example : crun { counter := 1, threads := [.idle 5, .idle 3, .inc] } [0, 1, 2, 1
     { counter := 5, threads := [.doneW 5, .doneW 3, .doneI 2] } := by decide
 
 end CAS
+
+/-! ## the persisted clock's read path, as found in the source -/
+
+/-- regenerated from util/lamport/persisted_clock.go: `read` answers "this clock does not exist"
+only when the file is missing (`os.IsNotExist`); any other failure is an error.  The repository
+answers "does not exist" by creating the clock at 1 (`deleted_clock_restarts`), which is right for a
+missing file and would take an intact clock back for any other failure. -/
+theorem gen_clock_not_exist_only_when_missing :
+    GitBugModel.Gen.WritePaths.clockNotExist = ["os.IsNotExist(err)"] := by
+  decide
 
 end GitBugModel.Props.C05
